@@ -15,7 +15,7 @@ BUDGET = {'quick': 1500, 'thorough': 60000}
 CAP_S = {'quick': 150, 'thorough': 3000}
 RULE = ('case = class source from a grammar: plain / class / static methods, properties with getter, setter and deleter, unannotated '
         'members, members annotated only in part (parameter / return / each property accessor independently), @no_type_check members, members pre-wrapped by a functools.wraps user decorator, nested classes (2 levels), single '
-        'inheritance from an undecorated parent with annotated members, optional @dataclass; every member gets conforming and violating '
+        'inheritance from an undecorated parent with annotated members, optional @dataclass, root class with a plain / ABC / user / falsy (__bool__, __len__) metaclass, decorated as @beartype, beartype(conf=c)(K) or beartype(K, conf=c); every member gets conforming and violating '
         'probe calls. Two routes over two copies of the same source: @beartype on the class vs my own rewriter decorating each own member '
         '(unwrapping and re-wrapping descriptors, recursing into nested classes, not touching inherited members). Asserted: same class '
         'object returned; probe verdicts equal call for call; descriptor kind, __name__, __qualname__, __doc__, inspect.signature and '
